@@ -377,11 +377,96 @@ def NamesOK (names : Option (List Names.GName)) : Prop :=
     ns.length ≤ 65535 ∧ (∀ n ∈ ns, n.length ≤ 255 ∧ ∀ c ∈ n, c < 256) ∧
     Names.postTable.length + Names.customCount Names.postTable ns ≤ 65536
 
+/-! ### post: the encoder emits bytes; the header adapter -/
+
+theorem u32_lt (n : Nat) : ∀ x ∈ Names.u32 n, x < 256 := by
+  intro x hx
+  simp only [Names.u32, List.mem_cons, List.not_mem_nil, or_false] at hx
+  omega
+
+theorem postHeader_lt (v : Nat) (h : Names.PostHdr) : ∀ x ∈ Names.postHeader v h, x < 256 := by
+  intro x hx
+  simp only [Names.postHeader, List.mem_append, List.mem_replicate] at hx
+  rcases hx with hx | hx | hx | hx | hx | hx
+  · exact u32_lt _ x hx
+  · exact u32_lt _ x hx
+  · exact u16_lt _ x hx
+  · exact u16_lt _ x hx
+  · exact u32_lt _ x hx
+  · omega
+
+theorem postEncodeNames_data_lt (tbl : List Names.GName) (ns : List Names.GName) (k : Nat)
+    (h : ∀ n ∈ ns, ∀ c ∈ n, c < 256) : ∀ x ∈ (Names.postEncodeNames tbl ns k).2, x < 256 := by
+  induction ns generalizing k with
+  | nil => intro x hx; cases hx
+  | cons n rest ih =>
+    have ihr := fun k => ih k (fun m hm => h m (List.mem_cons_of_mem _ hm))
+    have hn := h n List.mem_cons_self
+    unfold Names.postEncodeNames
+    split
+    · exact ihr k
+    · intro x hx
+      simp only [List.mem_cons, List.mem_append] at hx
+      rcases hx with hx | hx | hx
+      · omega
+      · exact hn x hx
+      · exact ihr (k + 1) x hx
+
+theorem postEncodeWith_lt (tbl : List Names.GName) (h : Names.PostHdr) (names : Option (List Names.GName))
+    (hc : ∀ ns, names = some ns → ∀ n ∈ ns, ∀ c ∈ n, c < 256) :
+    ∀ x ∈ Names.postEncodeWith tbl h names, x < 256 := by
+  unfold Names.postEncodeWith
+  cases names with
+  | none => exact postHeader_lt _ h
+  | some ns =>
+    simp only
+    split
+    · exact postHeader_lt _ h
+    · intro x hx
+      simp only [List.mem_append, List.mem_flatMap] at hx
+      rcases hx with hx | hx | ⟨i, _, hx⟩ | hx
+      · exact postHeader_lt _ h x hx
+      · exact u16_lt _ x hx
+      · exact u16_lt _ x hx
+      · exact postEncodeNames_data_lt tbl ns 0 (hc ns rfl) x hx
+
+theorem postHdrN_inRange (p : PostRec) : (postHdrN p).InRange := by
+  unfold Names.PostHdr.InRange postHdrN
+  simp only
+  omega
+
+theorem i32ofNat_emod (x : Int) (h1 : -2147483648 ≤ x) (h2 : x < 2147483648) :
+    Metrics.i32ofNat ((x % 4294967296).toNat) = x := by
+  unfold Metrics.i32ofNat
+  split <;> omega
+
+theorem i16ofNat_emod (x : Int) (h : isInt16 x) : Metrics.i16ofNat ((x % 65536).toNat) = x := by
+  unfold isInt16 at h
+  unfold Metrics.i16ofNat
+  split <;> omega
+
+theorem recOfPostHdrN_postHdrN (p : PostRec) (hp : isInt16 p.underlinePosition)
+    (ht : isInt16 p.underlineThickness) : recOfPostHdrN (postHdrN p) = codecPost p := by
+  have hr := toInt32_range p.italicAngle.round16
+  obtain ⟨ang, up, ut, fx⟩ := p
+  simp only at hp ht hr
+  simp only [recOfPostHdrN, postHdrN, codecPost, i32ofNat_emod _ hr.1 hr.2, i16ofNat_emod _ hp,
+    i16ofNat_emod _ ht]
+
 /-- post (C14, all versions): header and glyph names as `post.Read` returns them; the header is
 `codecPost` of the record -/
 theorem post_names_table (p : PostRec) (names : Option (List Names.GName))
     (hp : isInt16 p.underlinePosition) (ht : isInt16 p.underlineThickness) (hn : NamesOK names) :
     decodePostFull (natsToBytes (Names.postEncode (postHdrN p) names)) = .ok (codecPost p, names) := by
-  sorry
+  unfold decodePostFull Names.postEncode Names.postRead
+  rw [bytesToNats_natsToBytes _ (postEncodeWith_lt _ _ _ (fun ns hns n hm => ((hn ns hns).2.1 n hm).2))]
+  cases names with
+  | none =>
+    rw [Names.post_roundtrip_nil _ _ (postHdrN_inRange p)]
+    simp only [recOfPostHdrN_postHdrN p hp ht]
+  | some ns =>
+    obtain ⟨h1, h2, h3⟩ := hn ns rfl
+    rw [Names.post_roundtrip_with _ _ (postHdrN_inRange p) ns h1 (fun n hm => (h2 n hm).1) h3]
+    simp only [recOfPostHdrN_postHdrN p hp ht]
 
 end SfntV.FontFile
